@@ -230,6 +230,19 @@ def run_case(case):
                     f"save_merge_ds({name!r}) left {sorted(after)}")
             with under_test("load_ds after merge"):
                 both = x.load_ds(path, engine=engine)
+            # the labels themselves, exactly (label look-up casts the label
+            # to the index' dtype, which would hide a narrowed coordinate)
+            def exact(vals):
+                return sorted(v_ if isinstance(v_, str) else
+                              float(v_) if isinstance(v_, float) else v_
+                              for v_ in np.asarray(vals).tolist())
+            want_labels = exact(list(orig[d0].values.tolist()) +
+                                list(extra[d0].values.tolist()))
+            require(exact(both[d0].values) == want_labels,
+                    "merge-changed-labels",
+                    f"after save_merge_ds the coordinate {d0} reads "
+                    f"{exact(both[d0].values)}, saved were {want_labels} "
+                    f"({name!r}, {engine})")
             for lab_ds, what in ((orig, "first"), (extra, "second")):
                 for v in orig.data_vars:
                     if d0 not in orig[v].dims:
@@ -317,7 +330,9 @@ def strategy(draw):
     engine = draw(st.sampled_from(["h5netcdf", "joblib", "h5netcdf"]))
     name = draw(st.sampled_from(
         ["data", "data.h5", "data.dmp", "data.nc", "sub.dir/data",
-         "v1.2/res.h5", "my_results", "run-3.final/out"]))
+         "v1.2/res.h5", "my_results", "run-3.final/out",
+         # a dot in the file name itself that is no known extension
+         "scan_g0.25", "run_T0.5", "v2.final/data_x1.5"]))
     return {"dims": dims, "vars": vars_, "attrs": attrs, "engine": engine,
             "name": name, "seed": draw(st.integers(0, 2**20)),
             "chunks": draw(st.sampled_from([None, 1, 2, "dict"])),
